@@ -84,7 +84,10 @@ func (self *Core) runInstruction(instruction compiler.Instruction) *value.VmInte
 	case compiler.Opcode_Call_Val:
 		numberArgsRaw := *self.pop()
 		numArgs := numberArgsRaw.(value.ValueInt).Inner
-		function := *self.pop()
+		// The called value has been evaluated before the arguments: it lies below them
+		functionIdx := len(self.Stack) - 1 - int(numArgs)
+		function := *self.Stack[functionIdx]
+		self.Stack = append(self.Stack[:functionIdx], self.Stack[functionIdx+1:]...)
 		switch function.Kind() {
 		case value.VmFunctionValueKind:
 			function := function.(value.ValueVMFunction)
